@@ -25,7 +25,27 @@ class VErr(Exception):
         self.vid = i
 
 
+class VBase(BaseException):
+    """an exception instance outside the Exception hierarchy; only ever used as a *value*"""
+
+    def __init__(self, i):
+        BaseException.__init__(self, i)
+        self.vid = i
+
+
 LOG = []
+
+
+def mkval(v):
+    """AST value -> Python value.  {"x": i}: a fresh VErr(i) instance, {"bx": i}: a fresh VBase(i)
+    instance - exception objects used as data (returned / held by a ConstFuture), never raised."""
+    if isinstance(v, dict):
+        if "x" in v:
+            return VErr(v["x"])
+        if "bx" in v:
+            return VBase(v["bx"])
+        raise ValueError(v)
+    return v
 
 
 def treeval(v):
@@ -41,11 +61,15 @@ def treeval(v):
         return {"VList": [[treeval(x) for x in v]]}
     if type(v) is dict:
         return {"VDict": [[{"": [k, treeval(x)]} for k, x in v.items()]]}
+    if isinstance(v, BaseException):
+        code = exn_code(v)
+        if code is not None:
+            return {"VExc": [code]}
     return {"VOther": [{"s": type(v).__name__}]}
 
 
 def exn_code(e):
-    if isinstance(e, VErr):
+    if isinstance(e, (VErr, VBase)):
         return e.vid
     if type(e) is TypeError:
         return -1
@@ -110,7 +134,7 @@ class Prog:
         def pxfn(*a):
             LOG.append(["body", a[-1], flag()])
             if "c" in ret:
-                return ConstFuture(ret["c"])
+                return ConstFuture(mkval(ret["c"]))
             t = ret["t"]
             return prog.fns[t["id"]].asynq(t["id"])
 
@@ -126,19 +150,20 @@ class Prog:
         body = fn["body"]
         self.declare_stmts(body)
 
-        def finish(acc):
-            return list(acc)
+        def finish(acc, ret):
+            # ret: None when the body fell off its end (-> the accumulator), else (value,) of the return statement
+            return list(acc) if ret is None else ret[0]
 
         if fn["kind"] == "plain":
             def f(*a):
                 LOG.append(["body", a[-1], flag()])
                 acc = []
                 try:
-                    prog.run_plain(body, acc, a[-1])
+                    ret = prog.run_plain(body, acc, a[-1])
                 except Exception as e:
                     LOG.append(["done", a[-1], {"Err": [exn_tree(e)]}])
                     raise
-                r = finish(acc)
+                r = finish(acc, ret)
                 LOG.append(["done", a[-1], {"Ok": [treeval(r)]}])
                 return r
         else:
@@ -146,11 +171,11 @@ class Prog:
                 LOG.append(["body", a[-1], flag()])
                 acc = []
                 try:
-                    yield from prog.run(body, acc, a[-1])
+                    ret = yield from prog.run(body, acc, a[-1])
                 except Exception as e:
                     LOG.append(["done", a[-1], {"Err": [exn_tree(e)]}])
                     raise
-                r = finish(acc)
+                r = finish(acc, ret)
                 LOG.append(["done", a[-1], {"Ok": [treeval(r)]}])
                 return r
 
@@ -165,11 +190,11 @@ class Prog:
                     await asyncio.sleep(0)
                 acc = []
                 try:
-                    prog.run_plain(body, acc, a[-1])
+                    ret = prog.run_plain(body, acc, a[-1])
                 except Exception as e:
                     LOG.append(["done", a[-1], {"Err": [exn_tree(e)]}])
                     raise
-                r = finish(acc)
+                r = finish(acc, ret)
                 LOG.append(["done", a[-1], {"Ok": [treeval(r)]}])
                 return r
         elif fn["afn"] == "twin":
@@ -200,7 +225,7 @@ class Prog:
         if s is None:
             return None
         if "c" in s:
-            return ConstFuture(s["c"])
+            return ConstFuture(mkval(s["c"]))
         if "bad" in s:
             return s["bad"]
         if "t" in s or "px" in s:
@@ -213,7 +238,7 @@ class Prog:
             return {k: self.mk_struct(x) for k, x in s["dict"]}
         raise ValueError(s)
 
-    # ---- the body interpreter (generator); returns True when a `ret` statement ran
+    # ---- the body interpreter (generator); returns (value,) when a return statement ran, else None
     def run(self, stmts, acc, me):
         for st in stmts:
             if "y" in st:
@@ -227,25 +252,34 @@ class Prog:
                 acc.append(v)
             elif "try" in st:
                 try:
-                    if (yield from self.run(st["try"], acc, me)):
-                        return True
+                    r = yield from self.run(st["try"], acc, me)
+                    if r is not None:
+                        return r
                 except Exception as e:
                     code = exn_code(e)
                     LOG.append(["caught", me, exn_tree(e)])
-                    acc.append({-1: code if code is not None else -999})
-                    if (yield from self.run(st["exc"], acc, me)):
-                        return True
+                    if st.get("keep"):
+                        acc.append(e)           # the caught instance itself is kept as data
+                    else:
+                        acc.append({-1: code if code is not None else -999})
+                    r = yield from self.run(st["exc"], acc, me)
+                    if r is not None:
+                        return r
             elif "push" in st:
-                acc.append(st["push"])
+                acc.append(mkval(st["push"]))
             elif "raise" in st:
                 raise VErr(st["raise"])
             elif "ret" in st:
-                return True
+                return (list(acc),)
+            elif "retv" in st:
+                return (mkval(st["retv"][0]),)      # return <value>   (AST: {"retv": [V]})
+            elif "retlast" in st:
+                return (acc[-1] if acc else None,)  # return the last thing received / caught
             elif "sync" in st:
                 acc.append(self.sync_call(st["sync"]))
             else:
                 raise ValueError(st)
-        return False
+        return None
 
     def run_plain(self, stmts, acc, me):
         """Bodies without yield (plain functions, native coroutines)."""
